@@ -141,6 +141,57 @@ def c08(tier):
             obs.append({'key': p['name'], 'val': {'exit': 0 if rc == 0 else 1, 'bytes': hashlib.sha1(data).hexdigest(), 'len': len(data)}, 'cfg': name})
             chk.count((p['name'], 'cli:' + name))
         obs.append({'key': p['name'], 'val': {'exit': 0, 'bytes': hashlib.sha1(bytes(outs[i]['bytes'])).hexdigest(), 'len': len(outs[i]['bytes'])}, 'cfg': 'in-memory Vec'})
+    # real sinks that stop taking bytes: a reader that leaves early, a consumer that is already gone, a full device.  Each run is one conversation for TraceSink
+    # (what arrived must be a prefix; success may only be reported when everything arrived: FMLSink.Complete)
+    fprogs = [{'name': 'failing-sink:200KB-image', 'text': 'print("%s\\n"); print("~\\n", 1)' % ('q' * 200000), 'ast': None},
+              {'name': 'failing-sink:small-image', 'text': 'print("small ~\\n", 1)', 'ast': None}]
+    fouts = compile_pool(exe, fprogs, wd, [], 'c08f')
+    frecs, fexp, fmeta = [], [], {}
+    for i, p in enumerate(fprogs):
+        if 'bytes' not in fouts[i]:
+            raise ToolError('C08: %s did not compile' % p['name'])
+        src = os.path.join(wd, 'f%d.fml' % i)
+        open(src, 'w', encoding='utf-8').write(p['text'])
+        js = os.path.join(wd, 'f%d.json' % i)
+        sh([exe, 'parse', src, '--format', 'json', '-o', js], wd)
+        fexp.append({'expected': fouts[i]['bytes']})
+        got = os.path.join(wd, 'f%d.got' % i)
+        rcf = os.path.join(wd, 'f%d.rc' % i)
+        sinks = {'reader leaves after 16 bytes (| head -c 16)': '"%s" compile "%s" | head -c 16 > "%s"; echo ${PIPESTATUS[0]} > "%s"' % (exe, js, got, rcf),
+                 'consumer already gone (| true)': ': > "%s"; ( sleep 0.5; "%s" compile "%s"; echo $? > "%s" ) | true; sleep 0.1' % (got, exe, js, rcf),
+                 'device full (> /dev/full)': ': > "%s"; "%s" compile "%s" > /dev/full; echo $? > "%s"' % (got, exe, js, rcf),
+                 'healthy pipe (| cat)': '"%s" compile "%s" | cat > "%s"; echo ${PIPESTATUS[0]} > "%s"' % (exe, js, got, rcf)}
+        for sname, cmd in sinks.items():
+            if sname.startswith('reader leaves') and len(fouts[i]['bytes']) < 150000:
+                continue          # a small image fits into the pipe buffer before the reader leaves: nothing is prescribed
+            for f in (got, rcf):
+                if os.path.exists(f):
+                    os.remove(f)
+            subprocess.run(['bash', '-c', cmd], cwd=wd, stdout=subprocess.PIPE, stderr=subprocess.PIPE, timeout=120)
+            delivered = list(open(got, 'rb').read()) if os.path.exists(got) else []
+            try:
+                rc = int(open(rcf).read().strip())
+            except (OSError, ValueError):
+                raise ToolError('C08: no exit status recorded for %s under %s' % (p['name'], sname))
+            j = len(frecs)
+            fmeta[j] = (p['name'], sname, rc, len(delivered))
+            frecs.append({'id': j, 'p': i + 1, 'calls': [{'req': delivered, 'len': len(fouts[i]['bytes']), 'acc': len(delivered)}], 'result': 'ok' if rc == 0 else 'err', 'checklayout': False})
+            chk.count((p['name'], 'failing sink: ' + sname))
+    fpath, fppath = os.path.join(wd, 'fsink.ndjson'), os.path.join(wd, 'fsinkp.ndjson')
+    write_ndjson(fpath, frecs)
+    write_ndjson(fppath, fexp)
+    rf = tlc_or_die('TraceSink', env={'SINK': fpath, 'SINKP': fppath}, workers=2, timeout=900, tag='c08f')
+    chk.add_tlc(rf)
+    fv = {v['id']: v for v in rf.lines.get('VERDICT', [])}
+    if len(fv) != len(frecs):
+        raise ToolError('TraceSink: %d verdicts for %d command-line conversations' % (len(fv), len(frecs)))
+    for j, (pname, sname, rc, n) in fmeta.items():
+        chk.traces += 1
+        # an error reported although everything arrived is not a violation of this property here (the consumer may be gone after the last byte): only dropped bytes under a reported success
+        if fv[j]['verdict'] not in ('ok', 'error-reported-though-the-sink-never-failed'):
+            chk.violation('%s, %s: exit status %d with %d bytes delivered: %s' % (pname, sname, rc, n, fv[j]['verdict']),
+                          {'program': pname, 'sink': sname, 'exit': rc, 'delivered': n, 'verdict': fv[j]['verdict'], 'signature': {'kind': 'cli-failing-sink', 'verdict': fv[j]['verdict']}})
+    chk.notes['command_line_failing_sinks'] = {'%s / %s' % (a, b): 'exit %d, %d bytes' % (c, d) for (a, b, c, d) in fmeta.values()}
     opath = os.path.join(wd, 'obs.ndjson')
     write_ndjson(opath, obs)
     ro = tlc_or_die('FMLObservations', env={'OBS': opath}, workers=1, timeout=600)
